@@ -405,6 +405,7 @@ async fn server3(cfgf: &[u64], log: SLog, hg: Gates<u64>, pg: Gates<u64>) -> IoT
 }
 
 async fn server5(cfgf: &[u64], log: SLog, hg: Gates<u64>, pg: Gates<u64>) -> IoTest {
+    use ntex::service::ServiceFactory;
     let mut cfg = MqttServiceConfig::new().set_max_qos(qos_of(arg(cfgf, 0)));
     if arg(cfgf, 1) != 0 {
         cfg = cfg.set_max_receive(arg(cfgf, 1) as u16);
@@ -412,27 +413,35 @@ async fn server5(cfgf: &[u64], log: SLog, hg: Gates<u64>, pg: Gates<u64>) -> IoT
     cfg = cfg.set_max_topic_alias(arg(cfgf, 2) as u16);
     let cfg = conn::shared_cfg("I5", cfg);
 
-    let l1 = log.clone();
-    let publish = fn_service(move |p: v5::Publish| {
-        let h = {
-            let mut l = l1.borrow_mut();
-            let h = l.handlers.len() as u64 + 1;
-            l.handlers.push([
-                h,
-                qos_num(p.qos()),
-                p.id().map_or(0, |i| u64::from(i.get())),
-                topic_idx(p.publish_topic()),
-                p.payload_size() as u64,
-                u64::from(p.retain()),
-            ]);
-            h
-        };
-        let g = hg.clone();
-        async move {
-            let res = g.wait(h).await;
-            if res == 0 { Ok(p.ack()) } else { Err(HErr(res as u8)) }
-        }
-    });
+    // the publish service is a v5::Router: resources "t1" and "t2" log the topic index of THEIR OWN resource
+    // (1, 2), every other topic goes to the default service, which logs the index of the resolved topic:
+    // with correct routing the log is the same as that of a plain publish service
+    let mk = |fixed: Option<u64>| {
+        let l1 = log.clone();
+        let hg = hg.clone();
+        fn_service(move |p: v5::Publish| {
+            let h = {
+                let mut l = l1.borrow_mut();
+                let h = l.handlers.len() as u64 + 1;
+                l.handlers.push([
+                    h,
+                    qos_num(p.qos()),
+                    p.id().map_or(0, |i| u64::from(i.get())),
+                    fixed.unwrap_or_else(|| topic_idx(p.publish_topic())),
+                    p.payload_size() as u64,
+                    u64::from(p.retain()),
+                ]);
+                h
+            };
+            let g = hg.clone();
+            async move {
+                let res = g.wait(h).await;
+                if res == 0 { Ok(p.ack()) } else { Err(HErr(res as u8)) }
+            }
+        })
+        .map_init_err(|()| HErr(0))
+    };
+    let publish = v5::Router::new(mk(None)).resource("t1", mk(Some(1))).resource("t2", mk(Some(2)));
     let l2 = log.clone();
     let control = fn_service(move |c: Control<HErr>| {
         log_stop(&l2, &c);
